@@ -28,6 +28,8 @@ def slotSpec (cur : Option Pending) (t : Int) (a : TAction) : Option Pending :=
 structure MonSt where
   c : List (Option Pending)
   s : List (Option Pending)
+  /-- diagnosis only: actions superseded or cancelled before they fired (client?, machine, pending) -/
+  stale : List (Bool × Nat × Pending) := []
   deriving Repr, Inhabited
 
 def MonSt.side (m : MonSt) (client : Bool) : List (Option Pending) := if client then m.c else m.s
@@ -36,9 +38,17 @@ def MonSt.setSide (m : MonSt) (client : Bool) (x : List (Option Pending)) : MonS
 
 def sideName (client : Bool) : String := if client then "client" else "server"
 
-def applyActs (t : Int) (sl : List (Option Pending)) : List TAction → List (Option Pending)
-  | [] => sl
-  | a :: r => applyActs t (sl.set a.machine (slotSpec (sl[a.machine]?.join) t a)) r
+/-- apply the returned actions to the slots; also returns the pending actions they superseded -/
+def applyActs (t : Int) (sl : List (Option Pending)) (retired : List (Nat × Pending)) :
+    List TAction → List (Option Pending) × List (Nat × Pending)
+  | [] => (sl, retired)
+  | a :: r =>
+    let cur := sl[a.machine]?.join
+    let new := slotSpec cur t a
+    let retired := match cur with
+      | some p => if new == some p then retired else (a.machine, p) :: retired
+      | none => retired
+    applyActs t (sl.set a.machine new) retired r
 
 /-- first pending action whose due time is before `t` -/
 def overdue (sl : List (Option Pending)) (t : Int) : Option (Nat × Int) :=
@@ -46,30 +56,46 @@ def overdue (sl : List (Option Pending)) (t : Int) : Option (Nat × Int) :=
     | some p => if p.due < t then some (i, p.due) else none
     | none => none).head?
 
+/-- diagnosis: the event is explained by a superseded / cancelled action of the same machine that
+    was due exactly now (it had already been executed when it was superseded) -/
+def staleMatch (st : MonSt) (client : Bool) (m : Nat) (t : Int) (padding : Bool) : Bool :=
+  st.stale.any fun (c, m', p) => c == client && m' == m && p.due == t &&
+    (match p.action with
+      | .sendPadding .. => padding
+      | .blockOutgoing .. => !padding
+      | _ => false)
+
+/-- one observed event; a violation is prefixed by `[S1-early-exec]` when a superseded or
+    cancelled action of that machine, due exactly at this time, explains it.  Details after
+    ` | ` are not part of the key. -/
 def stepEv (st : MonSt) (x : EvActs) : Except String MonSt := do
   let e := x.ev
   let t := e.time
   for cl in [true, false] do
     if let some (m, due) := overdue (st.side cl) t then
-      throw s!"action timer of {sideName cl} machine {m} was due at {due} but did not fire before time moved to {t}"
+      throw s!"action timer of a {sideName cl} machine did not fire before time moved past it | machine {m} due at {due}, time moved to {t}"
   let sl := st.side e.client
   let sl ← match e.event with
     | .paddingSent m =>
+      let tag := if staleMatch st e.client m t true then "[S1-early-exec] " else ""
       match sl[m]?.join with
       | some ⟨.sendPadding _ bypass replace _, due⟩ =>
-        if due != t then throw s!"PaddingSent for {sideName e.client} machine {m} at {t} but the pending action is due at {due}"
+        if due != t then throw s!"{tag}PaddingSent for a {sideName e.client} machine at another time than the pending action is due | machine {m} at {t}, due {due}"
         else if e.bypass != bypass || e.replace != replace then
-          throw s!"PaddingSent for {sideName e.client} machine {m} at {t} carries flags ({e.bypass},{e.replace}) but the action says ({bypass},{replace})"
+          throw s!"PaddingSent for a {sideName e.client} machine carries other flags than the action | machine {m} at {t}: ({e.bypass},{e.replace}) vs ({bypass},{replace})"
         else pure (sl.set m none)
-      | _ => throw s!"PaddingSent for {sideName e.client} machine {m} at {t} without a pending SendPadding"
+      | _ => throw s!"{tag}PaddingSent for a {sideName e.client} machine without a pending SendPadding | machine {m} at {t}"
     | .blockingBegin m =>
+      let tag := if staleMatch st e.client m t false then "[S1-early-exec] " else ""
       match sl[m]?.join with
       | some ⟨.blockOutgoing _ _ _ _ _, due⟩ =>
-        if due != t then throw s!"BlockingBegin for {sideName e.client} machine {m} at {t} but the pending action is due at {due}"
+        if due != t then throw s!"{tag}BlockingBegin for a {sideName e.client} machine at another time than the pending action is due | machine {m} at {t}, due {due}"
         else pure (sl.set m none)
-      | _ => throw s!"BlockingBegin for {sideName e.client} machine {m} at {t} without a pending BlockOutgoing"
+      | _ => throw s!"{tag}BlockingBegin for a {sideName e.client} machine without a pending BlockOutgoing | machine {m} at {t}"
     | _ => pure sl
-  pure (st.setSide e.client (applyActs t sl x.acts))
+  let (sl, retired) := applyActs t sl [] x.acts
+  let st := st.setSide e.client sl
+  pure { st with stale := (retired.map fun (m, p) => (e.client, m, p)) ++ st.stale.filter fun (_, _, p) => p.due ≥ t }
 
 def runMon (st : MonSt) : List EvActs → Option String
   | [] => none
@@ -79,6 +105,6 @@ def runMon (st : MonSt) : List EvActs → Option String
     | .ok st => runMon st r
 
 def monitor (nc ns : Nat) (tr : List EvActs) : Option String :=
-  runMon ⟨List.replicate nc none, List.replicate ns none⟩ tr
+  runMon { c := List.replicate nc none, s := List.replicate ns none } tr
 
 end Mb.C17
